@@ -261,6 +261,20 @@ Theorem C06_split_leftover_bounds :
 Proof. exact leftover_bounds. Qed.
 Print Assumptions C06_split_leftover_bounds.
 
+(** * the message level: MsgPlaceBid.ValidateBasic and the msg server *)
+
+(* A bid delivered as a message ([msg_place_bid]: ValidateBasic -- auction id not
+   zero, amount a valid coin -- then the keeper call the msg server makes) is
+   exactly the keeper's PlaceBid: what ValidateBasic refuses the keeper refuses
+   too, so every theorem above about [place_bid] / [step] is a theorem about
+   MsgPlaceBid.  (No stored auction has id 0: NextAuctionID starts at 1.) *)
+Theorem C06_msg_place_bid_is_keeper_place_bid :
+  forall e s t id bidder d x parts,
+  Inv e s -> afind 0 (aucs s) = None ->
+  msg_place_bid e s t id bidder d x parts = place_bid e s t id bidder d x parts.
+Proof. exact msg_place_bid_is_place_bid. Qed.
+Print Assumptions C06_msg_place_bid_is_keeper_place_bid.
+
 (** * non-vacuity *)
 
 (* accounts: 0,1,2 users; 3 liquidator (minter, burner); 4 auction module; 5 the
